@@ -624,3 +624,156 @@ def gen_scenario(rng, malformed=False, conflicts=True):
         sc.decoys.append(tuple(rng.choice([sc.cwd, sub_a])) + (rng.choice([".sqlfluff", "setup.cfg"]),))
         sc.decoys = [d for d in sc.decoys if d[-1] not in sc.dirs.get(d[:-1], {})]
     return sc
+
+
+# ------------------------------------------------------------------------------------------------------------------------
+# Coq side of the scenario runs: results compressed against the shipped defaults
+
+COQ_DEFS2 = r'''
+Fixpoint cfg_eqb (a b : cfg text) {struct a} : bool :=
+  match a, b with
+  | Leaf x, Leaf y => text_eqb x y
+  | Dict l1, Dict l2 =>
+      (fix go (l1 l2 : list (key * cfg text)) {struct l1} : bool :=
+         match l1, l2 with
+         | [], [] => true
+         | (k1, x1) :: r1, (k2, x2) :: r2 => text_eqb k1 k2 && cfg_eqb x1 x2 && go r1 r2
+         | _, _ => false
+         end) l1 l2
+  | _, _ => false
+  end.
+Inductive zcfg := ZSame | ZL (v : ot) | ZD (l : list (ot * zcfg)).
+Fixpoint compress (dflt : option (cfg text)) (x : cfg text) {struct x} : zcfg :=
+  let same := match dflt with Some y => cfg_eqb x y | None => false end in
+  if same then ZSame else
+  match x with
+  | Leaf v => ZL (enc_text v)
+  | Dict l =>
+      ZD ((fix go (l : list (key * cfg text)) : list (ot * zcfg) :=
+             match l with
+             | [] => []
+             | (k, x') :: r =>
+                 (enc_text k, compress (match dflt with Some (Dict dl) => dget text k dl | _ => None end) x') :: go r
+             end) l)
+  end.
+Definition zres (dflt : dict text) (r : res (dict text)) : res zcfg :=
+  match r with Ok d => Ok (compress (Some (Dict dflt)) (Dict d)) | Err e => Err e end.
+Definition enc_paths (l : list path) := map (map enc_text) l.
+'''
+
+
+def dec_zcfg(o, dflt):
+    if o[0] == "ZSame":
+        return copy.deepcopy(dflt)
+    if o[0] == "ZL":
+        return dec_ot(o[1])
+    items = o[1] if len(o) > 1 else []
+    out = {}
+    for k, v in items:
+        kk = dec_ot(k)
+        out[kk] = dec_zcfg(v, dflt.get(kk) if isinstance(dflt, dict) else None)
+    return out
+
+
+def dec_zres(r, dflt):
+    if r[0] == "Ok":
+        return ("ok", dec_zcfg(r[1], dflt))
+    return ("err", r[1][0])
+
+
+def real_defaults():
+    from sqlfluff.core.helpers.dict import nested_combine
+    from sqlfluff.core.plugin.host import get_plugin_manager
+    return nested_combine(*get_plugin_manager().hook.load_default_config())
+
+
+def scenario_term(sc, iter_queries):
+    q = "[" + "; ".join("(%s, %s)" % (cpath(a), cpath(b)) for a, b in iter_queries) + "]" if iter_queries else "(@nil (path * path))"
+    return ("(let f := %s in (map (zres defaults) (run text idc f %s %s %s), "
+            "map (fun po => enc_paths (iter_intermediate_paths text f (fst po) (snd po))) %s, "
+            "fs_wfb text f && wfdb text (r_overrides text %s)))") % (
+        sc.coq_fs(), sc.coq_env(), sc.coq_root(), sc.coq_files(), q, sc.coq_root())
+
+
+# ------------------------------------------------------------------------------------------------------------------------
+# running the real code on a scenario
+
+def spell(root, cwd, p, rng):
+    """how a path is spelled on the command line: relative to cwd when below it (sometimes absolute), absolute otherwise"""
+    full = os.path.join(root, *p)
+    cw = os.path.join(root, *cwd)
+    if tuple(p[:len(cwd)]) == tuple(cwd) and rng.random() < 0.7:
+        return os.path.relpath(full, cw)
+    return full
+
+
+def impl_kwargs(sc, root, rng):
+    kw = {"ignore_local_config": sc.ignore_local}
+    if sc.extra is not None:
+        kw["extra_config_path"] = spell(root, sc.cwd, sc.extra, rng)
+    if sc.overrides:
+        kw["overrides"] = {k: dec(v) for k, v in sc.overrides.items()}
+    return kw
+
+
+def read_as_linter(path):
+    """what load_raw_file_and_config reads (utf-8 / autodetect, universal newlines)"""
+    with open(path, encoding="utf-8", errors="backslashreplace") as f:
+        return f.read()
+
+
+def impl_direct(sc, root, rng):
+    """FluffConfig.from_path + process_raw_file_for_config for every sql file -> [("ok", tree) | ("err", kind, repr)]"""
+    from sqlfluff.core import FluffConfig
+    out = []
+    for p, text in sc.sql:
+        try:
+            cfg = FluffConfig.from_path(spell(root, sc.cwd, p, rng), require_dialect=False, **impl_kwargs(sc, root, rng))
+            cfg.process_raw_file_for_config(text, "/".join(p))
+            out.append(("ok", norm_impl(cfg._configs), cfg))
+        except Exception as e:  # noqa: BLE001 - every exception class is an outcome of the model
+            out.append(("err", exc_kind(e), repr(e)[:300]))
+    return out
+
+
+class Capture:
+    """wraps the static/class methods the runner goes through; records the config of every file at load and at lint time"""
+
+    def __init__(self):
+        self.events = []
+
+    def __enter__(self):
+        from sqlfluff.core import Linter
+        self.Linter = Linter
+        self.saved = {n: Linter.__dict__[n] for n in ("load_raw_file_and_config", "lint_rendered", "get_rulepack")}
+        ev = self.events
+        orig_load = self.saved["load_raw_file_and_config"].__func__
+        orig_lr = self.saved["lint_rendered"].__func__
+        orig_rp = self.saved["get_rulepack"]
+
+        def load(fname, root_config):
+            raw, cfg, encoding = orig_load(fname, root_config)
+            ev.append(("load", os.path.abspath(fname), norm_impl(cfg._configs), raw))
+            return raw, cfg, encoding
+
+        def lint_rendered(cls, rendered, rule_pack, fix=False, formatter=None):
+            ev.append(("lint", os.path.abspath(rendered.fname), norm_impl(rendered.config._configs), None))
+            return orig_lr(cls, rendered, rule_pack, fix, formatter)
+
+        def get_rulepack(slf, config=None):
+            if config is not None:
+                ev.append(("rulepack", None, norm_impl(config._configs), None))
+            return orig_rp(slf, config)
+
+        Linter.load_raw_file_and_config = staticmethod(load)
+        Linter.lint_rendered = classmethod(lint_rendered)
+        Linter.get_rulepack = get_rulepack
+        return self
+
+    def __exit__(self, *a):
+        for n, v in self.saved.items():
+            setattr(self.Linter, n, v)
+
+
+def viol_sig(linted_file):
+    return sorted((v.rule_code(), v.line_no, v.line_pos, v.desc()[:60]) for v in linted_file.violations)
